@@ -29,7 +29,7 @@ use ant_quic::bootstrap_cache::{
 };
 use parking_lot::Mutex;
 use serde::{Deserialize, Serialize};
-use std::net::{IpAddr, Ipv6Addr, SocketAddr};
+use std::net::SocketAddr;
 use std::path::PathBuf;
 use std::sync::Arc;
 use std::time::Duration;
@@ -206,18 +206,19 @@ impl BootstrapManager {
             P2PError::Bootstrap(BootstrapError::RateLimited(e.to_string().into()))
         })?;
 
-        // IP diversity check (scoped to avoid holding lock across await)
-        let ipv6 = ip_to_ipv6(&ip);
+        // IP diversity check (scoped to avoid holding lock across await).
+        // IPv4 peers are judged by the IPv4 levels (address, /24, /16); mapping them to
+        // ::ffff:a.b.c.d would put every IPv4 peer into one /64.
         {
             let mut diversity = self.diversity_enforcer.lock();
-            let analysis = diversity.analyze_ip(ipv6).map_err(|e| {
+            let analysis = diversity.analyze_unified(ip).map_err(|e| {
                 warn!("IP analysis failed for {}: {}", ip, e);
                 P2PError::Bootstrap(BootstrapError::InvalidData(
                     format!("IP analysis failed: {e}").into(),
                 ))
             })?;
 
-            if !diversity.can_accept_node(&analysis) {
+            if !diversity.can_accept_unified(&analysis) {
                 warn!("IP diversity limit exceeded for {}", ip);
                 return Err(P2PError::Bootstrap(BootstrapError::RateLimited(
                     "IP diversity limits exceeded".to_string().into(),
@@ -225,7 +226,7 @@ impl BootstrapManager {
             }
 
             // Track in diversity enforcer
-            if let Err(e) = diversity.add_node(&analysis) {
+            if let Err(e) = diversity.add_unified(&analysis) {
                 warn!("Failed to track IP diversity for {}: {}", ip, e);
             }
         } // Lock released here before await
@@ -439,14 +440,6 @@ fn string_to_ant_peer_id(peer_id: &str) -> ant_quic::nat_traversal_api::PeerId {
     let mut bytes = [0u8; 32];
     bytes.copy_from_slice(&result);
     ant_quic::nat_traversal_api::PeerId(bytes)
-}
-
-/// Convert IP address to IPv6 (IPv4 mapped if needed)
-fn ip_to_ipv6(ip: &IpAddr) -> Ipv6Addr {
-    match ip {
-        IpAddr::V4(v4) => v4.to_ipv6_mapped(),
-        IpAddr::V6(v6) => *v6,
-    }
 }
 
 /// Get the default cache directory
